@@ -19,6 +19,10 @@ Import ListNotations.
 
 Definition name := nat.
 Definition hole : name := 0.
+(* The grammar looks at the spelling of an identifier in two places (CtorIdent, and the field
+   name of `id ":" Type_` in RecordField): does it start with an uppercase letter?  The harness
+   interns names so that exactly the names with an initial uppercase letter are odd. *)
+Definition upper (n : name) : bool := Nat.odd n.
 
 Inductive token :=
 | TkId (n : name)          (* identifier *)
@@ -137,6 +141,19 @@ Definition print (p : prec) (t : ty) : list token := pr false p t.
 (* Parser                                                                                     *)
 (* ------------------------------------------------------------------------------------------ *)
 
+(* one-token look-ahead tests *)
+Definition is_comma (ts : list token) : bool := match ts with TkComma :: _ => true | _ => false end.
+Definition is_colon (ts : list token) : bool := match ts with TkColon :: _ => true | _ => false end.
+Definition is_eq (ts : list token) : bool := match ts with TkEq :: _ => true | _ => false end.
+Definition is_pipe (ts : list token) : bool := match ts with TkPipe :: _ => true | _ => false end.
+Definition is_arrow (ts : list token) : bool := match ts with TkArrow :: _ => true | _ => false end.
+Definition is_dot (ts : list token) : bool := match ts with TkDot :: _ => true | _ => false end.
+Definition is_dotdot (ts : list token) : bool := match ts with TkDotDot :: _ => true | _ => false end.
+Definition is_rp (ts : list token) : bool := match ts with TkRP :: _ => true | _ => false end.
+Definition is_rb (ts : list token) : bool := match ts with TkRB :: _ => true | _ => false end.
+Definition is_rc (ts : list token) : bool := match ts with TkRC :: _ => true | _ => false end.
+Definition is_lp (ts : list token) : bool := match ts with TkLP :: _ => true | _ => false end.
+
 (* tokens that can begin an AtomicType *)
 Definition starts_atomic (ts : list token) : bool :=
   match ts with
@@ -166,13 +183,20 @@ Definition parse_fname (ts : list token) : option (fname * list token) :=
   | _ => None
   end.
 
-(* the "(" alternatives of AtomicType_ are told apart by the token after "(" *)
-Inductive lp_kind := LpFunCon | LpDotDot | LpTypes.
-Definition classify_lp (r : list token) : lp_kind :=
-  match r with
-  | TkArrow :: _ => LpFunCon
-  | TkDotDot :: _ => LpDotDot
-  | _ => LpTypes
+Definition fname_upper (fn : fname) : bool := match fn with FId x => upper x | FOp _ => false end.
+
+(* what an AtomicType_ starting with this token sequence is *)
+Inductive atom_kind := AkId (x : name) | AkFunCon | AkDotDot | AkTypes | AkRecord | AkEffect | AkNone.
+Definition classify_atomic (ts : list token) : atom_kind :=
+  match ts with
+  | TkId x :: _ => AkId x
+  | TkLP :: TkArrow :: TkRP :: _ => AkFunCon            (* "(" "->" ")" *)
+  | TkLP :: TkArrow :: _ => AkNone
+  | TkLP :: TkDotDot :: _ => AkDotDot                   (* "(" ".." AtomicType ")" *)
+  | TkLP :: _ => AkTypes                                (* "(" CommaTemp<Type> ")" *)
+  | TkLC :: _ => AkRecord
+  | TkLB :: TkPipe :: _ => AkEffect
+  | _ => AkNone
   end.
 
 (* what a Type_ starting with this token sequence is *)
@@ -185,51 +209,51 @@ Definition classify_type (ts : list token) : ty_kind :=
   | _ => KApp
   end.
 
+Definition tl2 (ts : list token) := tl (tl ts).
+Definition tl3 (ts : list token) := tl (tl (tl ts)).
+
 Fixpoint parse_atomic (fuel : nat) (ts : list token) {struct fuel} : option (ty * list token) :=
   match fuel with
   | O => None
   | S n =>
-      match ts with
-      | TkId x :: r => Some (TId x, r)
-      | TkLP :: r =>
-          match classify_lp r with
-          | LpFunCon =>                                   (* "(" "->" ")" *)
-              match r with TkArrow :: TkRP :: r' => Some (TFunCon, r') | _ => None end
-          | LpDotDot =>                                   (* "(" ".." AtomicType ")" *)
-              match parse_atomic n (tl r) with
-              | Some (t, TkRP :: r') => Some (TVariant CNil (RSome t), r')
-              | _ => None
-              end
-          | LpTypes =>                                    (* "(" CommaTemp<Type> ")" *)
-              match parse_commas n r with
-              | Some (l, TkRP :: r') =>
-                  Some (match l with TCons t TNil => t | _ => TTuple l end, r')
-              | _ => None
-              end
+      match classify_atomic ts with
+      | AkId x => Some (TId x, tl ts)
+      | AkFunCon => Some (TFunCon, tl3 ts)
+      | AkDotDot =>
+          match parse_atomic n (tl2 ts) with
+          | Some (t, r) => if is_rp r then Some (TVariant CNil (RSome t), tl r) else None
+          | None => None
           end
-      | TkLC :: r =>                                      (* "{" CommaTemp<RecordField> ("|" Type)? "}" *)
-          match parse_rfields n r with
+      | AkTypes =>
+          match parse_commas n (tl ts) with
+          | Some (l, r) =>
+              if is_rp r
+              then Some (match l with TCons t TNil => t | _ => TTuple l end, tl r)
+              else None
+          | None => None
+          end
+      | AkRecord =>                                       (* "{" CommaTemp<RecordField> ("|" Type)? "}" *)
+          match parse_rfields n (tl ts) with
           | Some (tfs, fs, r1) =>
               match parse_rest n r1 with
-              | Some (rest, TkRC :: r2) => Some (TRecord tfs fs rest, r2)
-              | _ => None
+              | Some (rest, r2) => if is_rc r2 then Some (TRecord tfs fs rest, tl r2) else None
+              | None => None
               end
           | None => None
           end
-      | TkLB :: TkPipe :: r =>                            (* "[" "|" SepSlice<Effect, ","> ("|" Type)? "|" "]" *)
-          match parse_efields n r with
+      | AkEffect =>                                       (* "[" "|" SepSlice<Effect, ","> ("|" Type)? "|" "]" *)
+          match parse_efields n (tl2 ts) with
           | Some (fs, r1) =>
-              match r1 with
-              | TkPipe :: TkRB :: r2 => Some (TEffect fs RNone, r2)
-              | _ =>
-                  match parse_rest n r1 with
-                  | Some (rest, TkPipe :: TkRB :: r2) => Some (TEffect fs rest, r2)
-                  | _ => None
-                  end
-              end
+              if is_pipe r1 && is_rb (tl r1) then Some (TEffect fs RNone, tl2 r1)
+              else
+                match parse_rest n r1 with
+                | Some (rest, r2) =>
+                    if is_pipe r2 && is_rb (tl r2) then Some (TEffect fs rest, tl2 r2) else None
+                | None => None
+                end
           | None => None
           end
-      | _ => None
+      | AkNone => None
       end
   end
 
@@ -274,31 +298,37 @@ with parse_type (fuel : nat) (ts : list token) {struct fuel} : option (ty * list
   | S n =>
       match classify_type ts with
       | KForall =>                                        (* "forall" Ident+ "." Type *)
-          match take_ids (tl ts) with
-          | (v :: vs, TkDot :: r) =>
-              match parse_type n r with
-              | Some (t, r') => Some (TForall (v :: vs) t, r')
-              | None => None
-              end
-          | _ => None
+          let (vs, r) := take_ids (tl ts) in
+          match vs with
+          | [] => None
+          | _ :: _ =>
+              if is_dot r then
+                match parse_type n (tl r) with
+                | Some (t, r') => Some (TForall vs t, r')
+                | None => None
+                end
+              else None
           end
       | KImplicit =>                                      (* "[" Type_ "]" "->" Type *)
           match parse_type n (tl ts) with
-          | Some (a, TkRB :: TkArrow :: r) =>
-              match parse_type n r with
-              | Some (b, r') => Some (TFun true a b, r')
-              | None => None
-              end
-          | _ => None
+          | Some (a, r) =>
+              if is_rb r && is_arrow (tl r) then
+                match parse_type n (tl2 r) with
+                | Some (b, r') => Some (TFun true a b, r')
+                | None => None
+                end
+              else None
+          | None => None
           end
       | KApp =>                                           (* AppType ("->" Type)? *)
           match parse_app n ts with
-          | Some (a, TkArrow :: r) =>
-              match parse_type n r with
-              | Some (b, r') => Some (TFun false a b, r')
-              | None => None
-              end
-          | Some (a, r) => Some (a, r)
+          | Some (a, r) =>
+              if is_arrow r then
+                match parse_type n (tl r) with
+                | Some (b, r') => Some (TFun false a b, r')
+                | None => None
+                end
+              else Some (a, r)
           | None => None
           end
       end
@@ -311,12 +341,13 @@ with parse_commas (fuel : nat) (ts : list token) {struct fuel} : option (tys * l
   | S n =>
       if starts_type ts then
         match parse_type n ts with
-        | Some (t, TkComma :: r) =>
-            match parse_commas n r with
-            | Some (l, r') => Some (TCons t l, r')
-            | None => None
-            end
-        | Some (t, r) => Some (TCons t TNil, r)
+        | Some (t, r) =>
+            if is_comma r then
+              match parse_commas n (tl r) with
+              | Some (l, r') => Some (TCons t l, r')
+              | None => None
+              end
+            else Some (TCons t TNil, r)
         | None => None
         end
       else Some (TNil, ts)
@@ -330,44 +361,47 @@ with parse_rfields (fuel : nat) (ts : list token) {struct fuel} : option (tfield
   | S n =>
       match parse_fname ts with
       | None => Some (TFNil, FNil, ts)
-      | Some (fn, TkColon :: r) =>                        (* id ":" Type_ *)
-          match parse_type n r with
-          | Some (t, TkComma :: r') =>
-              match parse_rfields n r' with
-              | Some (tfs, fs, r'') => Some (tfs, FCons fn t fs, r'')
-              | None => None
-              end
-          | Some (t, r') => Some (TFNil, FCons fn t FNil, r')
-          | None => None
-          end
-      | Some (FId x, r) =>
-          let (ps, r1) := take_ids r in
-          match r1 with
-          | TkEq :: r2 =>                                 (* id params "=" Type_ *)
-              match parse_type n r2 with
-              | Some (t, TkComma :: r') =>
-                  match parse_rfields n r' with
-                  | Some (tfs, fs, r'') => Some (TFCons x ps t tfs, fs, r'')
+      | Some (fn, r) =>
+          if is_colon r then                              (* id ":" Type_ ; an uppercase id is an error (329-342) *)
+            if fname_upper fn then None else
+            match parse_type n (tl r) with
+            | Some (t, r') =>
+                if is_comma r' then
+                  match parse_rfields n (tl r') with
+                  | Some (tfs, fs, r'') => Some (tfs, FCons fn t fs, r'')
                   | None => None
                   end
-              | Some (t, r') => Some (TFCons x ps t TFNil, FNil, r')
-              | None => None
-              end
-          | _ =>
-              match ps with
-              | [] =>                                     (* id alone: a type field of type `_` *)
-                  match r1 with
-                  | TkComma :: r' =>
-                      match parse_rfields n r' with
-                      | Some (tfs, fs, r'') => Some (TFCons x [] (TId hole) tfs, fs, r'')
-                      | None => None
-                      end
-                  | _ => Some (TFCons x [] (TId hole) TFNil, FNil, r1)
+                else Some (TFNil, FCons fn t FNil, r')
+            | None => None
+            end
+          else
+            match fn with
+            | FOp _ => None
+            | FId x =>
+                let (ps, r1) := take_ids r in
+                if is_eq r1 then                          (* id params "=" Type_ *)
+                  match parse_type n (tl r1) with
+                  | Some (t, r') =>
+                      if is_comma r' then
+                        match parse_rfields n (tl r') with
+                        | Some (tfs, fs, r'') => Some (TFCons x ps t tfs, fs, r'')
+                        | None => None
+                        end
+                      else Some (TFCons x ps t TFNil, FNil, r')
+                  | None => None
                   end
-              | _ => None
-              end
-          end
-      | Some (FOp _, _) => None
+                else
+                  match ps with
+                  | [] =>                                 (* id alone: a type field of type `_` *)
+                      if is_comma r1 then
+                        match parse_rfields n (tl r1) with
+                        | Some (tfs, fs, r'') => Some (TFCons x [] (TId hole) tfs, fs, r'')
+                        | None => None
+                        end
+                      else Some (TFCons x [] (TId hole) TFNil, FNil, r1)
+                  | _ :: _ => None
+                  end
+            end
       end
   end
 
@@ -377,18 +411,20 @@ with parse_efields (fuel : nat) (ts : list token) {struct fuel} : option (fields
   | O => None
   | S n =>
       match parse_fname ts with
-      | Some (fn, TkColon :: r) =>
-          match parse_type n r with
-          | Some (t, TkComma :: r') =>
-              match parse_efields n r' with
-              | Some (fs, r'') => Some (FCons fn t fs, r'')
-              | None => None
-              end
-          | Some (t, r') => Some (FCons fn t FNil, r')
-          | None => None
-          end
-      | Some _ => None
       | None => Some (FNil, ts)
+      | Some (fn, r) =>
+          if is_colon r then
+            match parse_type n (tl r) with
+            | Some (t, r') =>
+                if is_comma r' then
+                  match parse_efields n (tl r') with
+                  | Some (fs, r'') => Some (FCons fn t fs, r'')
+                  | None => None
+                  end
+                else Some (FCons fn t FNil, r')
+            | None => None
+            end
+          else None
       end
   end
 
@@ -397,81 +433,101 @@ with parse_rest (fuel : nat) (ts : list token) {struct fuel} : option (orest * l
   match fuel with
   | O => None
   | S n =>
-      match ts with
-      | TkPipe :: r =>
-          match parse_type n r with
-          | Some (t, r') => Some (RSome t, r')
-          | None => None
-          end
-      | _ => Some (RNone, ts)
-      end
+      if is_pipe ts then
+        match parse_type n (tl ts) with
+        | Some (t, r') => Some (RSome t, r')
+        | None => None
+        end
+      else Some (RNone, ts)
   end.
 
-(* VariantField* : "|" CtorIdent AtomicType*  |  "|" CtorIdent ":" Type *)
+(* TypeBinding turns every argument of the function spine of a GADT-style constructor into a
+   constructor field: `*arg_type = ArgType::Constructor` (grammar.lalrpop:401-408), so an implicit
+   argument `[a] ->` there reads back as a plain one. *)
+Fixpoint explicit_spine (t : ty) : ty :=
+  match t with
+  | TFun _ a r => TFun false a (explicit_spine r)
+  | _ => t
+  end.
+
+(* the constructor name after "|" *)
+Definition ctor_name (ts : list token) : option name :=
+  match ts with TkId c :: _ => Some c | _ => None end.
+
+(* VariantField* : "|" CtorIdent AtomicType*  |  "|" CtorIdent ":" Type ; CtorIdent must start
+   with an uppercase letter (grammar.lalrpop:196-205) *)
 Fixpoint parse_ctors (fuel : nat) (ts : list token) {struct fuel} : option (ctors * list token) :=
   match fuel with
   | O => None
   | S n =>
-      match ts with
-      | TkPipe :: TkId c :: TkColon :: r =>
-          match parse_type n r with
-          | Some (t, r1) =>
-              match parse_ctors n r1 with
-              | Some (cs, r2) => Some (CGadt c t cs, r2)
+      if is_pipe ts then
+        match ctor_name (tl ts) with
+        | None => None
+        | Some c =>
+            if negb (upper c) then None else
+            if is_colon (tl2 ts) then
+              match parse_type n (tl3 ts) with
+              | Some (t, r1) =>
+                  match parse_ctors n r1 with
+                  | Some (cs, r2) => Some (CGadt c (explicit_spine t) cs, r2)
+                  | None => None
+                  end
               | None => None
               end
-          | None => None
-          end
-      | TkPipe :: TkId c :: r =>
-          match parse_atomics n r with
-          | Some (args, r1) =>
-              match parse_ctors n r1 with
-              | Some (cs, r2) => Some (CSimple c args cs, r2)
+            else
+              match parse_atomics n (tl2 ts) with
+              | Some (args, r1) =>
+                  match parse_ctors n r1 with
+                  | Some (cs, r2) => Some (CSimple c args cs, r2)
+                  | None => None
+                  end
               | None => None
               end
-          | None => None
-          end
-      | TkPipe :: _ => None
-      | _ => Some (CNil, ts)
-      end
+        end
+      else Some (CNil, ts)
   end.
 
 (* VariantField+ (".." AtomicType)? *)
 Definition parse_variant (fuel : nat) (ts : list token) : option (ty * list token) :=
-  match ts with
-  | TkPipe :: _ =>
-      match parse_ctors fuel ts with
-      | Some (cs, TkDotDot :: r) =>
-          match parse_atomic fuel r with
+  if is_pipe ts then
+    match parse_ctors fuel ts with
+    | Some (cs, r) =>
+        if is_dotdot r then
+          match parse_atomic fuel (tl r) with
           | Some (t, r') => Some (TVariant cs (RSome t), r')
           | None => None
           end
-      | Some (cs, r) => Some (TVariant cs RNone, r)
-      | None => None
+        else Some (TVariant cs RNone, r)
+    | None => None
+    end
+  else None.
+
+(* "forall" Ident+ "." "(" "|" ...: the quantified variant of VariantType (grammar.lalrpop:363) *)
+Definition forall_variant (ts : list token) : bool :=
+  match ts with
+  | TkForall :: r =>
+      match take_ids r with
+      | (_ :: _, TkDot :: TkLP :: TkPipe :: _) => true
+      | _ => false
       end
-  | _ => None
+  | _ => false
   end.
 
 (* TypeTop: the body of `type T = ...` (grammar.lalrpop:369-381, 357-367) *)
 Definition parse_top (fuel : nat) (ts : list token) : option (ty * list token) :=
-  match ts with
-  | TkDotDot :: r =>                                      (* ".." AtomicType *)
-      match parse_atomic fuel r with
-      | Some (t, r') => Some (TVariant CNil (RSome t), r')
-      | None => None
-      end
-  | TkPipe :: _ => parse_variant fuel ts
-  | TkForall :: r =>
-      match take_ids r with
-      | (v :: vs, TkDot :: TkLP :: TkPipe :: r1) =>       (* "forall" Ident+ "." "(" VariantType ")" *)
-          match parse_variant fuel (TkPipe :: r1) with
-          | Some (t, TkRP :: r2) => Some (TForall (v :: vs) t, r2)
-          | _ => None
-          end
-      | _ => parse_type fuel ts
-      end
-  | _ => parse_type fuel ts
-  end.
+  if is_dotdot ts then                                    (* ".." AtomicType *)
+    match parse_atomic fuel (tl ts) with
+    | Some (t, r') => Some (TVariant CNil (RSome t), r')
+    | None => None
+    end
+  else if is_pipe ts then parse_variant fuel ts
+  else if forall_variant ts then                          (* "forall" Ident+ "." "(" VariantType ")" *)
+    let (vs, r) := take_ids (tl ts) in
+    match parse_variant fuel (tl2 r) with
+    | Some (t, r2) => if is_rp r2 then Some (TForall vs t, tl r2) else None
+    | None => None
+    end
+  else parse_type fuel ts.
 
 (* ------------------------------------------------------------------------------------------ *)
 (* Fuel that suffices for a printed type (TypeSyntaxProofs.v)                                 *)
